@@ -552,4 +552,34 @@ def getFavorites (file : Option (List Nat × Nat)) (retrieveTS : Nat) : Option (
 sub-headers (a folder costs 52 + 4 bytes, more than a board's 14 or a line's 3). -/
 def MAX_FILE : Nat := 2 + 4 + MAX_FAV * (52 + 4)
 
+/-! ### a write error in the middle of a save (ENOSPC, EDQUOT, EFBIG, EIO)
+
+`Save` and `WriteFavorites` check the error of every write (`BinaryWrite`, `BinWrite`, `os.WriteFile`): the
+first failing write ends the save with an error return, before the rename. The failing call may have
+written the first `p` bytes of its chunk (short write). -/
+
+/-- the system calls of a save whose `i`-th write call fails after `p` bytes: no rename follows. -/
+def faultedSteps (tmp : String) (chunks : List (List Nat)) (i p : Nat) : List Step :=
+  .create tmp :: ((chunks.take i).map (Step.write tmp) ++ [.write tmp ((chunks.getD i []).take p)])
+
+/-- a saver that does NOT notice the error (what a `BinaryWrite` swallowing it amounts to): the later
+writes fail as well, the rename happens. -/
+def swallowingSteps (tmp : String) (chunks : List (List Nat)) (i p : Nat) : List Step :=
+  faultedSteps tmp chunks i p ++ [.rename tmp FAVFILE]
+
+inductive SaveReturn where
+  | ok
+  | err
+  deriving Repr, DecidableEq
+
+/-- a save under an optional write fault: the steps it performs and what it returns. -/
+def saveUnderFault (tmp : String) (chunks : List (List Nat)) (fault : Option (Nat × Nat)) :
+    List Step × SaveReturn :=
+  match fault with
+  | none => (atomicSteps tmp chunks, .ok)
+  | some (i, p) => (faultedSteps tmp chunks i p, .err)
+
+/-- the fault RLIMIT_FSIZE = `limit` produces on a save writing `total` bytes: none when everything fits. -/
+def efbigOutcome (limit total : Nat) : SaveReturn := if total ≤ limit then .ok else .err
+
 end PttVerif.C19
